@@ -100,14 +100,16 @@ def restart_edge(f, facts):
     disp = life.dispatch_edges(f, 'NotStarted')
     header = f.term_loc(disp[0]['si']['bb']) if disp else None
     stores = [l for l, v, e in life.status_stores(f, 'NotStarted')]
-    yes = restart_reach(f, loc, t, en['EINTR'], header) & restart_reach(f, loc, t, en['ECANCELED'], header)
+    r_intr, r_canc = restart_reach(f, loc, t, en['EINTR'], header), restart_reach(f, loc, t, en['ECANCELED'], header)
+    yes = r_intr & r_canc
     no = restart_reach(f, loc, t, en['EPIPE'], header) | restart_reach(f, loc, t, None, header)
     only = yes - no
     # the entry edge whose target reaches the NotStarted store
     cands = []
     for b in sorted(only):
         for p in f.pred[b]:
-            if p not in only and not f.blocks[p]['cleanup'] and p in yes:
+            # (the two errno values may arrive over separate edges: `e != EINTR && e != ECANCELED` branches twice)
+            if p not in only and not f.blocks[p]['cleanup'] and p in (r_intr | r_canc):
                 cands.append((p, b))
     for e in cands:
         if any(f.forward_paths_hit([Loc(e[1], 0)], [s_]) is not None for s_ in stores) or not stores:
